@@ -231,7 +231,9 @@ PROPS = {
                       "shared row-digest specification stated over the recorded calls of an arbitrary hash function, so "
                       "they agree for every hasher; partition arithmetic is complete over all settings.",
         "level_note": "PARTIAL: the LDE clauses (evaluate_polys / interpolate_columns equal naive evaluation) are not under "
-                      "contract; row widths <= 6, 2 rows, listed partition settings. ColMatrix::commit_to_rows not covered.",
+                      "contract (a unit over F_17 with 4-coefficient columns was tried: CBMC aborts in propositional reduction after "
+                      "115k verification conditions, with one or two symbolic columns alike; the FFT underneath is under contract in "
+                      "C12 at the same sizes); row widths <= 6, 2 rows, listed partition settings. ColMatrix::commit_to_rows not covered.",
     },
     "C29": {
         "level": "model_checking",
